@@ -6,7 +6,8 @@ LEVEL = "proof"
 RULE = ("marker workspaces (1-4 files) that trigger the gated rules idiomatic/use-strings-count (needs built-in strings.count) "
         "and bugs/if-empty-object (needs keyword `if`), linted with the target capabilities = every embedded OPA version "
         "(capabilities.from.engine/version) and with plus/minus edits; one file vs many. non-trivial = at least one notice "
-        "or one violation of a gated rule; distinct = (workspace, capabilities)")
+        "or one violation of a gated rule; distinct = (workspace, capabilities)"
+        " Also: Caps.mustSkip on the capabilities of every sampled version (read with OPA's loader) vs notices and violations; every version also given as a capabilities file.")
 TRUSTED = ["capabilities lookup (embedded JSON files) and the per-rule notice conditions are the Env side; the gating table is "
            "checked on the implementation's own report: a rule with a notice has no violation"]
 ASSUMPTIONS = []
